@@ -35,6 +35,9 @@ class RecTarget:
         self.kind = c.get("tkind", "smooth")
         self.pa = 1.5 + 2.0 * np.abs(self.a)
         self.pb = 1.5 + 2.0 * np.abs(np.diag(np.asarray(c["tG"], dtype=float)))
+        # "cliff": the smooth target minus 2000 * sigmoid((z_0 - wall) / 1e-3) - a steep (differentiable) wall a little ahead of the
+        # start: a leaf beyond it has a finite energy error of -2000 (a divergence) while its momentum is unchanged (no U-turn)
+        self.wall = float(np.asarray(c["x0"], dtype=float).reshape(-1)[0]) + 0.8
 
     def f(self, z):
         if self.kind == "beta":
@@ -43,7 +46,12 @@ class RecTarget:
                 return -np.inf
             return float(np.sum((self.pa - 1) * np.log(z) + (self.pb - 1) * np.log1p(-z)))
         r = np.asarray(z, dtype=float).reshape(-1) - self.a
-        return float(-0.5 * r @ self.H @ r - self.q * np.sum(r ** 4))
+        base = float(-0.5 * r @ self.H @ r - self.q * np.sum(r ** 4))
+        if self.kind == "cliff":
+            with np.errstate(all="ignore"):
+                u = (float(np.asarray(z, dtype=float).reshape(-1)[0]) - self.wall) / 1e-3
+                base -= 2000.0 / (1.0 + np.exp(-u)) if u < 700 else 2000.0
+        return base
 
     def g(self, z):
         if self.kind == "beta":
@@ -52,7 +60,14 @@ class RecTarget:
                 return np.full(len(z), np.nan)
             return (self.pa - 1) / z - (self.pb - 1) / (1 - z)
         r = np.asarray(z, dtype=float).reshape(-1) - self.a
-        return -(self.H @ r) - 4 * self.q * r ** 3
+        grad = -(self.H @ r) - 4 * self.q * r ** 3
+        if self.kind == "cliff":
+            with np.errstate(all="ignore"):
+                u = (float(np.asarray(z, dtype=float).reshape(-1)[0]) - self.wall) / 1e-3
+                sg = 1.0 / (1.0 + np.exp(-u)) if abs(u) < 700 else (1.0 if u > 0 else 0.0)
+                grad = grad.copy()
+                grad[0] -= 2000.0 * sg * (1.0 - sg) / 1e-3
+        return grad
 
     def build(self, dim):
         import cuqi
@@ -71,14 +86,14 @@ def det_cases(draw, tier="quick"):
             # slice variable log u = H0 - e: small e puts many leaves outside the slice, large e almost none
             "e": float(10 ** draw(st.floats(-4, 0.7))),
             # (not exactly 1.0: the legacy sampler reads adapt_step_size == 1.0 as True, i.e. 'adapt')
-            "eps": draw(st.sampled_from([1e-3, 0.05, 0.05, 0.1, 0.2, 0.2, 0.35, 0.5, 0.7, 0.9, 1.3, 2.0, 4.0])),
+            "eps": draw(st.sampled_from([1e-3, 0.05, 0.05, 0.1, 0.2, 0.2, 0.35, 0.5, 0.7, 0.9, 1.3, 2.0, 4.0, 8.0, 20.0])),
             # (deep trees with small steps: the last doubling is often cut short inside its second half - halves of unequal size)
             "depth": draw(st.sampled_from([0, 1, 2, 3, 4, 5, 6, 6])),
             "interface": draw(st.sampled_from(["experimental", "legacy"])), "useed": draw(st.integers(0, 10 ** 6)),
             # legacy interface: the sampler object has already produced a chain from another start before it is given x0
             "reuse": draw(st.booleans()),
             # the target: smooth on R^n, or with bounded support (leaves outside the support have log-density -inf and no gradient)
-            "tkind": draw(st.sampled_from(["smooth", "smooth", "beta"]))}
+            "tkind": draw(st.sampled_from(["smooth", "smooth", "beta", "cliff"]))}
 
 
 def orbit(T, x0, r0, eps, K):
@@ -260,7 +275,9 @@ def run_det(c, rec):
     # a last doubling that was cut short inside its second half (leaf count not a power of two) has sub-trees with halves of unequal size
     tags = {"interface": c["interface"], "doublings": min(ndoubl, 5), "outside_slice": bool(outside),
             "last_doubling": "complete" if L == 2 ** (j - 1) else "cut_pow2" if L & (L - 1) == 0 else "cut_unequal_halves",
-            "target": c.get("tkind", "smooth"), "nonfinite_leaf": bool(outside_support)}
+            "target": c.get("tkind", "smooth"), "nonfinite_leaf": bool(outside_support),
+            # a leaf whose energy error is finite and exceeds the divergence threshold (the trajectory must stop there)
+            "finite_divergence": bool(any(np.isfinite(Hs[i]) and log_u >= 1000 + Hs[i] for i in last_doubling))}
     if rec.classify(tags, ndoubl >= 2 and outside):
         return
     # the new state
